@@ -993,7 +993,7 @@ func TestVerifC18(t *testing.T) {
 			jobs = append(jobs, "names/"+k.id+"/"+o.id)
 		}
 	}
-	jobs = append(jobs, "attrs/utf8", "attrs/legacy", "units")
+	jobs = append(jobs, "attrs/utf8", "attrs/legacy", "units", "lastchar")
 	enum.Jobs(jobs, func(job string) {
 		r := enum.Start("C18", "names")
 		defer r.Finish()
@@ -1068,6 +1068,31 @@ func TestVerifC18(t *testing.T) {
 					if strings.HasSuffix(name, "_") {
 						continue
 					}
+					for _, kind := range c18MainKinds {
+						for _, opt := range c18Opts {
+							for _, legacy := range []bool{false, true} {
+								if r.Expired() {
+									return
+								}
+								if !r.Want() {
+									continue
+								}
+								run.one(name, unit, kind, opt, legacy, c18MainSets)
+							}
+						}
+					}
+				}
+			}
+		case "lastchar":
+			// names whose last character (before and after a _total suffix is cut) is the first or the
+			// last of a character class: a z A Z 0 9
+			var names []string
+			for _, c := range []string{"a", "z", "A", "Z", "0", "9", "m"} {
+				names = append(names, "x"+c, "x"+c+"_total", "x"+c+".total", "x_"+c)
+			}
+			r.Bound("lastchar_names", names)
+			for _, name := range names {
+				for _, unit := range c18Units {
 					for _, kind := range c18MainKinds {
 						for _, opt := range c18Opts {
 							for _, legacy := range []bool{false, true} {
